@@ -18,6 +18,7 @@ import hashlib
 import json
 import os
 import re
+import signal
 import subprocess
 import sys
 import time
@@ -149,17 +150,36 @@ def miri_cmd(crate, flavour, bin_name, prog_args, miriflags, *, features=None, m
 
 
 def run_one(argv, env=None, cwd=None, timeout=600, stdin=None):
-    """Run a process; returns dict(rc, out, err, timed_out, wall)."""
+    """Run a process; returns dict(rc, out, err, timed_out, wall).
+    The job gets its own process group, and on timeout the whole group is killed: killing only the direct child
+    (as subprocess.run does) left grandchildren such as `miri` under `cargo` alive with the pipes open, and the
+    drain after the kill then blocked for ever."""
     t0 = time.time()
+    p = subprocess.Popen(argv, env=env, cwd=cwd, stdin=subprocess.PIPE if stdin is not None else None,
+                         stdout=subprocess.PIPE, stderr=subprocess.PIPE, start_new_session=True)
     try:
-        p = subprocess.run(argv, env=env, cwd=cwd, timeout=timeout, input=stdin,
-                           stdout=subprocess.PIPE, stderr=subprocess.PIPE)
-        return dict(rc=p.returncode, out=p.stdout.decode("utf-8", "replace"),
-                    err=p.stderr.decode("utf-8", "replace"), timed_out=False,
+        out, err = p.communicate(input=stdin, timeout=timeout)
+        return dict(rc=p.returncode, out=out.decode("utf-8", "replace"),
+                    err=err.decode("utf-8", "replace"), timed_out=False,
                     wall=time.time() - t0, argv=argv)
-    except subprocess.TimeoutExpired as ex:
-        return dict(rc=None, out=(ex.stdout or b"").decode("utf-8", "replace"),
-                    err=(ex.stderr or b"").decode("utf-8", "replace"), timed_out=True,
+    except subprocess.TimeoutExpired:
+        try:
+            os.killpg(p.pid, signal.SIGKILL)
+        except OSError:
+            pass
+        try:
+            out, err = p.communicate(timeout=20)
+        except subprocess.TimeoutExpired:
+            # something escaped the group and still holds the pipes: give up on its output
+            p.kill()
+            out, err = b"", b""
+            for f in (p.stdout, p.stderr):
+                try:
+                    f.close()
+                except Exception:
+                    pass
+        return dict(rc=None, out=(out or b"").decode("utf-8", "replace"),
+                    err=(err or b"").decode("utf-8", "replace"), timed_out=True,
                     wall=time.time() - t0, argv=argv)
 
 
